@@ -1527,6 +1527,12 @@ def r61_initialize_order(ctx, sc: SimCtx):
         ctx.ob('R6.1', f'{fld}:=INITIALIZED', ok)
         if not ok:
             ctx.finding('R6.1', f'Simulator.initialize:{fld}', bci, bfn, f'{fld} is not set to {val} on every path of initialize', where='Simulator.initialize')
+    warmup_priority(ctx, sc, 'R6.1')
+
+
+def warmup_priority(ctx, sc: SimCtx, rule):
+    prog = ctx.prog
+    dci, dfn = prog.resolve(SIM, 'initialize')
     # warm-up priority
     sched = [c for c in walk_shallow(dfn) if isinstance(c, ast.Call) and isinstance(c.func, ast.Attribute) and c.func.attr.startswith('schedule_event')
              and any(isinstance(a, ast.Constant) and a.value == 'warmup' for a in c.args)]
@@ -1545,9 +1551,9 @@ def r61_initialize_order(ctx, sc: SimCtx):
         prv = prog.const(pr.value.id, pr.attr)
     normal = prog.const('SimEventInterface', 'NORMAL_PRIORITY')
     ok = prv is not NOCONST and prv is not None and normal is not NOCONST and isinstance(prv, int) and prv > normal
-    ctx.ob('R6.1', 'warmup-priority', ok, sample=f'warm-up scheduled with priority {unparse(pr) if pr is not None else None} = {prv} > NORMAL_PRIORITY {normal}')
+    ctx.ob(rule, 'warmup-priority', ok, sample=f'warm-up scheduled with priority {unparse(pr) if pr is not None else None} = {prv} > NORMAL_PRIORITY {normal}')
     if not ok:
-        ctx.finding('R6.1', 'DEVSSimulator.initialize:warmup-priority', dci, sched[0] if sched else dfn,
+        ctx.finding(rule, 'DEVSSimulator.initialize:warmup-priority', dci, sched[0] if sched else dfn,
                     'the warm-up event is not scheduled with a priority above NORMAL_PRIORITY: model events at the warm-up instant can run before the statistics are reset',
                     where='DEVSSimulator.initialize')
 
@@ -1646,3 +1652,50 @@ def r63_reset_completeness(ctx, sc: SimCtx):
             ctx.finding('R6.3', f'Simulator.{f}:not-reset', bci, bfn,
                         f'field {f} is written during a run ({where_}) but neither initialize nor _start_impl re-assigns it: state of the previous replication leaks into the next',
                         where='Simulator.initialize')
+
+
+def r116_end_after_clock(ctx, sc: SimCtx):
+    """R11.6: END_REPLICATION is fired only after the clock was set to the replication end"""
+    prog = ctx.prog
+    ctx.rule('R11.6', 'END_REPLICATION_EVENT is only fired in state ENDING, and ENDING is only entered with the clock at (or moved to) the replication end')
+    n = 0
+    for ci, fn in sc.sim_functions():
+        for st in walk_shallow(fn):
+            if not (isinstance(st, ast.Assign) and unparse(st.value) == 'ReplicationState.ENDING'
+                    and any(isinstance(t, ast.Attribute) and t.attr == '_replication_state' for t in st.targets)):
+                continue
+            n += 1
+            g = CFG(fn)
+            node = g.node_for(st)
+            env = {('ord', sc.clock_t, sc.end_t): 'lt'}
+            ge = GuardEval(prog, ci.name, env, sc.enums)
+            guarded = any((ge.ev(c.ast) is not None and ge.ev(c.ast) != br) for (c, br) in g.guard_branches(node))
+            moved = False
+            if not guarded:
+                # every normal path from the write (or to it) passes `if clock < end: clock := end`
+                sets = []
+                for w in walk_shallow(fn):
+                    if isinstance(w, ast.Assign) and any(is_self_attr(t, sc.clock) for t in w.targets) and sc.c(w.value, ci.name) == sc.end_t:
+                        sets.append(w)
+                for w in sets:
+                    wn = g.node_for(w)
+                    for (c, br) in g.guard_branches(wn):
+                        if sc.c(c.ast, ci.name) in (f'{sc.clock_t} < {sc.end_t}', f'{sc.end_t} > {sc.clock_t}') and br:
+                            # the guard itself must be on every normal path
+                            if not g.reaches(g.entry, g.exit, avoid=[c], labels_excluded=('exc', 'raise', 'reraise')):
+                                moved = True
+            ok = guarded or moved
+            ctx.ob('R11.6', f'{ci.name}.{fn.name}:ENDING', ok, sample=f'{ci.name}.{fn.name}: ENDING entered with clock >= end ({"guard" if guarded else "clock moved to end" if moved else "NOT ESTABLISHED"})')
+            if not ok:
+                ctx.finding('R11.6', f'{ci.name}.{fn.name}:ENDING-clock', ci, st,
+                            'the replication can enter ENDING (and then fire END_REPLICATION_EVENT) while the clock is before the replication end: '
+                            'persistent statistics are closed at the wrong time', where=f'{ci.name}.{fn.name}')
+    ctx.floor('R11.6', 'writes of ENDING', n, 2)
+    wr = prog.method('SimulatorWorkerThread', 'run', inherited=False)
+    for c in _fires_of(wr, 'END_REPLICATION_EVENT'):
+        ts = c.args[0] if c.args else None
+        ok = ts is not None and unparse(ts) in ('self._job.simulator_time', 'self._job._simulator_time')
+        ctx.ob('R11.6', 'worker.run:END-timestamp', ok, sample=f'END_REPLICATION_EVENT timestamp: {unparse(ts) if ts is not None else None}')
+        if not ok:
+            ctx.finding('R11.6', 'SimulatorWorkerThread.run:END-timestamp', prog.cls('SimulatorWorkerThread'), c, 'END_REPLICATION_EVENT is not timestamped with the simulator clock',
+                        where='SimulatorWorkerThread.run')
